@@ -46,8 +46,55 @@ var (
 	}()
 )
 
-// modfileArgs returns the -modfile argument that redirects the replace directive to repoDir.
+// buildRepo is the tree the simulator is compiled against: an instrumented scratch copy of repoDir (see
+// cmd/instrument) or, when that cannot be made, repoDir itself.
+var buildRepo = ""
+
+// prepareInstrumented copies repoDir into the build directory with yield points in front of every synchronisation
+// operation of the library (its own and whatever a change brought along). If anything goes wrong the plain tree is used.
+func prepareInstrumented() {
+	buildRepo = repoDir
+	if os.Getenv("VERIF_NO_INSTRUMENT") != "" {
+		return
+	}
+	instBin := filepath.Join(buildDir, "instrument")
+	cmd := exec.Command(goBin, "build", "-o", instBin, "./cmd/instrument")
+	cmd.Dir = simDir
+	cmd.Env = goEnv()
+	if out, err := cmd.CombinedOutput(); err != nil {
+		fmt.Printf("note: instrumenter does not build (%v): %s; using the plain tree\n", err, tail(string(out), 300))
+		return
+	}
+	inst := filepath.Join(buildDir, "inst")
+	os.RemoveAll(inst)
+	if out, err := exec.Command(instBin, repoDir, inst).CombinedOutput(); err != nil {
+		fmt.Printf("note: instrumentation failed (%v): %s; using the plain tree\n", err, tail(string(out), 300))
+		os.RemoveAll(inst)
+		return
+	}
+	chk := exec.Command(goBin, "build", "-tags", "verif", "./...")
+	chk.Dir = inst
+	chk.Env = goEnv()
+	if out, err := chk.CombinedOutput(); err != nil {
+		// does the plain tree build? then the instrumentation broke it: fall back. Otherwise build() reports it.
+		plain := exec.Command(goBin, "build", "-tags", "verif", "./...")
+		plain.Dir = repoDir
+		plain.Env = goEnv()
+		if _, perr := plain.CombinedOutput(); perr == nil {
+			fmt.Printf("note: the instrumented copy does not build: %s; using the plain tree\n", tail(string(out), 300))
+		}
+		os.RemoveAll(inst)
+		return
+	}
+	buildRepo = inst
+}
+
+// modfileArgs returns the -modfile argument that redirects the replace directive to the tree compiled against.
 func modfileArgs() []string {
+	repoDir := buildRepo
+	if repoDir == "" {
+		repoDir = envOr("VERIF_REPO", "/repo")
+	}
 	if repoDir == "/repo" {
 		return nil
 	}
@@ -76,6 +123,7 @@ func harness(format string, args ...any) {
 
 func build() {
 	os.MkdirAll(buildDir, 0o755)
+	prepareInstrumented()
 	// keep go.sum in step with /repo (the module under test is a replace target)
 	if b, err := os.ReadFile(filepath.Join(repoDir, "go.sum")); err == nil {
 		if old, _ := os.ReadFile(filepath.Join(simDir, "go.sum")); !strings.Contains(string(old), firstLine(string(b))) {
